@@ -24,6 +24,7 @@ fn profile() -> ScenarioProfile {
         rf: true,
         ops: vec![Op::Remove, Op::Remove, Op::Link, Op::SoftLink, Op::Move],
         files: (5, 16),
+        hardlinks: 3,
     }
 }
 
